@@ -34,7 +34,10 @@ RULE = ("one yaql call per case on host data; datetimes from the year grid {1,19
         "dateutil tzoffset/tzutc), aware objects whose tzinfo has a VARYING offset (zoneinfo.ZoneInfo, dateutil "
         "tzstr/tzrange/tzfile, a toy tzinfo subclass; sampled on both sides of their offset changes, around the epoch "
         "and over the year grid) and values built by yaql's own datetime(...); offsets at minute resolution in "
-        "(-24h,24h) (edge list + uniform); timespans from signed integer components; non-trivial = the call "
+        "(-24h,24h) (edge list + uniform); timespans from signed integer components, including for EVERY component "
+        "parameter of timespan() values at and beyond the machine-word boundaries (2^31, 2^53, 2^63 +-1, 2^64, ...) up to "
+        "python's timedelta limits (+-999999999 days), alone and compensated by another component, and totals at those "
+        "boundaries (the timedelta range is the only guard of model and property); non-trivial = the call "
         "involves a non-zero offset, a naive host datetime, a range edge or a non-zero timespan; distinct = "
         "distinct (operation, canonical inputs)")
 TRUSTED = ["Model/DateTime.v is a hand transcription of yaql/standard_library/date_time.py and yaqltypes.DateTime; "
@@ -736,8 +739,46 @@ def gen_related(rng, spec):
     return {"kind": k, "wall": w, "offmin": offmin}
 
 
+TS_MIN = -999999999 * DAY                 # timedelta.min in microseconds
+TS_MAX = 10 ** 9 * DAY - 1                # timedelta.max in microseconds
+COMPONENT_UNITS = [DAY, 3600 * 10 ** 6, 60 * 10 ** 6, 10 ** 6, 1000, 1]     # days .. microseconds
+COMPONENT_NAMES = ["days", "hours", "minutes", "seconds", "milliseconds", "microseconds"]
+WORD_EDGES = [2 ** 31 - 1, 2 ** 31, 2 ** 31 + 1, 2 ** 32, 2 ** 53 - 1, 2 ** 53, 2 ** 53 + 1, 2 ** 62, 2 ** 63 - 1, 2 ** 63,
+              2 ** 63 + 1, 2 ** 64 - 1, 2 ** 64, 2 ** 64 + 1, 2 ** 65, 2 ** 66]
+# microsecond counts at and beyond the machine-word boundaries, up to python's timedelta limits, both signs
+# (the only guard of the model and of the property is the timedelta range itself)
+BOUNDARY_TOTALS = sorted({sg * v for v in WORD_EDGES for sg in (1, -1) if TS_MIN <= sg * v <= TS_MAX} |
+                         {TS_MIN, TS_MIN + 1, TS_MAX, TS_MAX - 1, TS_MAX - DAY, TS_MIN + DAY, -(2 ** 63) - 1, -(2 ** 63)})
+
+
+def gen_boundary_components(rng):
+    """timespan(...) arguments in which ONE component parameter sits at / beyond a machine-word boundary or at
+    the largest value the timedelta range allows for it; half of the time another component brings the total
+    back into (or next to) the timedelta range, so that the component itself is what is large"""
+    i = rng.randrange(6)
+    unit = COMPONENT_UNITS[i]
+    top = TS_MAX // unit
+    b = rng.choice(WORD_EDGES + [top, top + 1, top - 1, (-TS_MIN) // unit, (-TS_MIN) // unit + 1])
+    b *= rng.choice([1, -1])
+    comps = [0] * 6
+    for j in range(6):
+        if j != i and rng.random() < 0.3:
+            comps[j] = rng.randrange(-50, 51)
+    comps[i] = b
+    if rng.random() < 0.5:
+        j = rng.choice([k for k in range(6) if k != i])
+        target = rng.choice([0, 0, rng.randrange(-10 ** 6, 10 ** 6), TS_MAX, TS_MIN, TS_MAX + 1, TS_MIN - 1,
+                             rng.choice(BOUNDARY_TOTALS)])
+        total = sum(c * u for c, u in zip(comps, COMPONENT_UNITS)) - comps[j] * COMPONENT_UNITS[j]
+        comps[j] = (target - total) // COMPONENT_UNITS[j]
+    return comps
+
+
 def gen_ts(rng):
     r = rng.random()
+    if r < 0.06:
+        return min(TS_MAX, max(TS_MIN, rng.choice(BOUNDARY_TOTALS) + rng.choice([0, 0, 1, -1])))
+    r = (r - 0.06) / 0.94
     if r < 0.2:
         return rng.choice([0, 1, -1, 999, 1000, -1000, 10 ** 6, -10 ** 6, 59999999, 6 * 10 ** 7, 36 * 10 ** 8, DAY, -DAY,
                            DAY - 1, 1 - DAY, 365 * DAY, -366 * DAY])
@@ -882,7 +923,9 @@ def gen_case(rng):
         return {"op": "OpUnit", "args": [rng.choice(list(UNITS)), t]}
     if r < 0.96:
         comps = gen_components(rng)
-        if rng.random() < 0.05:
+        if rng.random() < 0.3:
+            comps = gen_boundary_components(rng)
+        elif rng.random() < 0.07:
             comps = rng.choice([[999999999, 23, 59, 59, 999, 999], [999999999, 24, 0, 0, 0, 0], [-999999999, 0, 0, 0, 0, 0],
                                 [-999999999, 0, 0, 0, 0, -1], [10 ** 9, -1, 0, 0, 0, 0], [0, 0, 0, 0, 0, gen_ts(rng)]])
         return {"op": "OpTimespan", "args": comps}
@@ -1177,6 +1220,32 @@ def law_units(inp):
     return None
 
 
+def law_components(inp):
+    """for every component parameter p of timespan(): timespan(p => k) is k units, of any magnitude the timedelta
+    range allows, whether k comes from data or is spelled in the text; x = timespan(p => k) round-trips through
+    timespan(microseconds => x.microseconds)"""
+    i, k = inp["param"], inp["k"]
+    name, unit = COMPONENT_NAMES[i], COMPONENT_UNITS[i]
+    total = k * unit
+    for text, data in (("timespan(%s => $.k)" % name, {"k": k}), ("timespan(%s => %d)" % (name, k), None)):
+        r = ev(text, data)
+        if TS_MIN <= total <= TS_MAX:
+            if not (isinstance(r, datetime.timedelta) and r == total * US):
+                return {"expression": text, "observed": repr(r), "required": "timedelta of %d microseconds" % total}
+        elif not isinstance(r, OverflowError):
+            return {"expression": text, "observed": repr(r), "required": "OverflowError (outside the timedelta range)"}
+    if TS_MIN <= total <= TS_MAX:
+        data = {"k": k}
+        r = ev("timespan(%s => $.k).microseconds" % name, data)
+        if not (type(r) is int and r == total):
+            return {"expression": "timespan(%s => k).microseconds" % name, "observed": repr(r), "required": total}
+        r = ev("timespan(microseconds => timespan(%s => $.k).microseconds) = timespan(%s => $.k)" % (name, name), data)
+        if r is not True:
+            return {"expression": "timespan(microseconds => x.microseconds) = x  with x = timespan(%s => k)" % name,
+                    "observed": repr(r), "required": True}
+    return None
+
+
 def law_scale(inp):
     """(t * k) / k = t ; k * t = t * k ; (t * k) / t = k ; -(-t) = t ; t + (-t) = 0"""
     t_us, k = inp["t"], inp["k"]
@@ -1289,6 +1358,7 @@ LAWS = {
     "add_sub": (law_add_sub, "(d + t) - t = d / (d + t) - d = t fails"),
     "order_is_instant_order": (law_order, "equality/ordering of datetimes is not that of their instants (naive taken as UTC)"),
     "units": (law_units, "timespan unit properties are not one quantity in different units"),
+    "timespan_components": (law_components, "timespan(<component> => k) is not k units / does not round-trip through microseconds"),
     "naive_is_utc": (law_naive, "a naive host datetime is not treated as the same reading at UTC"),
     "iso_roundtrip": (law_iso, "datetime(d.format(ISO-8601)) = d fails"),
     "timespan_scale": (law_scale, "timespan scaling / ratio / negation laws fail"),
@@ -1346,6 +1416,14 @@ def oracle(run, deep):
     _, corpus_laws = load_corpus()
     for item in corpus_laws:
         check_law(run, item["law"], item["input"])
+    # exhaustive part: every component parameter of timespan() x every machine-word edge and the largest value
+    # the timedelta range allows for it, both signs; the unit laws on every boundary total
+    for i, unit in enumerate(COMPONENT_UNITS):
+        for v in WORD_EDGES + [TS_MAX // unit, TS_MAX // unit + 1, (-TS_MIN) // unit, (-TS_MIN) // unit + 1, 0, 1]:
+            for sg in (1, -1):
+                check_law(run, "timespan_components", {"param": i, "k": sg * v})
+    for t in BOUNDARY_TOTALS:
+        check_law(run, "units", {"t": t})
     # exhaustive part: every offset at minute resolution x one datetime per grid year (thorough),
     # every 7th minute + the edges (quick)
     step = 1 if (not run.quick or deep) else 7
